@@ -198,12 +198,12 @@ def main():
                "index holds it, so the real _check_for_modified_notes decides the stamping",
                "in-memory FS: a write is atomic (quick) or torn to its first half (thorough); a torn JSON file does not parse; "
                "_hash_file = identity; console silent; clock fixed at 2024-05-10"],
-        bounds=["2 pages; per page: file in {absent, v1, v2, page with a ZID-less note}, index/hash entry in {absent, v1, v2, "
-                "stamped yesterday}: %d invariant-satisfying per-page states, all %d pairs x {db reindex, db reindex <page a>, "
+        bounds=["2 pages; per page: file in {absent, v1, v2, page with a ZID-less note, page with an edited note AND a ZID-less "
+                "note (two write-backs queued)}, index/hash entry in {absent, v1, v2, stamped yesterday}: %d invariant-satisfying per-page states, all %d pairs x {db reindex, db reindex <page a>, "
                 "db reindex <page b>, db create} x every boundary between two external effects of that run (and past the last one) x {atomic, "
                 "torn} for file writes" % (nv, nv * nv)],
-        outside=["crashes inside SQLite / the OS (a commit and a non-torn write are atomic here)", "more than 2 pages / 1 note per page",
-                 "pages with several notes (two write-backs queued for one page)", "a crash DURING the re-run (the statement asks for one interruption)"])
+        outside=["crashes inside SQLite / the OS (a commit and a non-torn write are atomic here)", "more than 2 pages / 2 notes per page",
+                 "a crash DURING the re-run (the statement asks for one interruption)"])
     kf_active, _ = known_findings("C13")
     kf_ids = {e["id"] for e in kf_active}
     T = 200 if tier == "quick" else 600
@@ -212,7 +212,7 @@ def main():
     rep.note("crash schedules: %d with atomic writes, %d with a torn file write" % (n_atomic, n_all - n_atomic))
     # quick: every atomic schedule + every 4th torn one (rotated by the seed); thorough: all
     conds = []
-    step = 700
+    step = 1400
     for lo in range(0, n_all, step):
         hi = min(n_all, lo + step)
         conds.append(xh.Cond(H, "converge", timeout=T, env=dict(env0, XH_N="%d-%d" % (lo, hi)),
